@@ -11,7 +11,7 @@ open Avfs
 structure DState where
   idm : Idm.State := Idm.init [] []
   idmSpec : Idm.Spec := Idm.Spec.init [] []
-  fs : FS.FSState := FS.newState
+  fs : FS.FSState := FS.initState
 
 def stepLine (st : DState) (line : String) : DState × String :=
   match (line.trimAscii.toString.splitOn " ").filter (· ≠ "") with
